@@ -341,6 +341,8 @@ fn expect_at(pre: &crate::model::Model, wlog: &[(Vec<u8>, u8, Vec<u8>, u64)], ke
 }
 
 pub fn run_execution(sc: &Scenario, dir: &Path, prefix: &[usize]) -> ExecResult {
+    let t0 = std::time::Instant::now();
+    let prof = std::env::var("VERIF_SCHED_PROFILE").is_ok();
     crate::hx::fresh_dir(dir);
     let mut viol: Vec<(String, String)> = vec![];
     // preload outside the scheduler
@@ -353,6 +355,9 @@ pub fn run_execution(sc: &Scenario, dir: &Path, prefix: &[usize]) -> ExecResult 
         if let Some(e) = info.err {
             return ExecResult { decisions: vec![], violations: vec![], machinery: Some(format!("preload {}: {e}", op.short())), steps: 0, outcome: 0 };
         }
+    }
+    if prof {
+        eprintln!("preload {:?}", t0.elapsed());
     }
     let pre_model = d.model.clone();
     let published0 = d.visible.get();
@@ -433,6 +438,9 @@ pub fn run_execution(sc: &Scenario, dir: &Path, prefix: &[usize]) -> ExecResult 
     for h in handles {
         let _ = h.join();
     }
+    if prof {
+        eprintln!("threads done {:?}", t0.elapsed());
+    }
     let (decisions, steps) = {
         let st = sched.st.lock().unwrap();
         (st.decisions.clone(), st.steps)
@@ -497,6 +505,9 @@ pub fn run_execution(sc: &Scenario, dir: &Path, prefix: &[usize]) -> ExecResult 
             viol.push((format!("C07:{}", v.sig), v.msg));
         }
     }
+    if prof {
+        eprintln!("oracle a-e {:?}", t0.elapsed());
+    }
     // flushed set: which writes (preload and writer) are in the tables of the final version
     let mut all_writes: Vec<(Vec<u8>, u8, Vec<u8>, u64)> = pre_model
         .writes
@@ -551,6 +562,9 @@ pub fn run_execution(sc: &Scenario, dir: &Path, prefix: &[usize]) -> ExecResult 
                 }
             }
         }
+    }
+    if prof {
+        eprintln!("end {:?}", t0.elapsed());
     }
     ExecResult { decisions, violations: viol, machinery, steps, outcome }
 }
@@ -695,6 +709,9 @@ pub fn scenarios_c18() -> Vec<Scenario> {
 pub fn run_scenarios(tier: &str, threads: usize, max_wall_s: f64, scs: Vec<Scenario>, property: &str) -> Outcome {
     let start = std::time::Instant::now();
     let max_bound: usize = if tier == "quick" { 2 } else { 3 };
+    // every execution already runs 3-5 OS threads that hand a token around; measured throughput
+    // peaks at 4-5 concurrent executions on 16 cores and falls beyond that
+    let threads = threads.min(5);
     let root = crate::hx::scratch_root().join("sched");
     crate::hx::fresh_dir(&root);
     let n_sc = scs.len();
